@@ -50,6 +50,12 @@
  *      present/absent, at address 1 and ending at 0xffffffff, every window x
  *      the three operations.  An area is readable when it is flagged readable
  *      and names a read function; every other area reads zero.
+ *  P9  calls of another kind between register_init and the reads: 125 tables
+ *      of three adjacent areas x 19 intervening calls (sanitise clean / after a
+ *      register was poked out of range, repairable or not; refused / accepted
+ *      typed set and block write; block write into a hole; typed reads and bit
+ *      operations; a stopped iteration) x every window x {block read,
+ *      iteration} against the flat model of the storage as it then is.
  */
 #include "mc.h"
 #include "regfam.h"
@@ -843,6 +849,181 @@ run_histories(bool thorough)
     }
 }
 
+/* ---- P9: calls of another kind between initialisation and the reads ---------------
+ * "On an initialised table": a table stays initialised whatever other public
+ * operation ran on it in between, accepted or refused -- no statement gives
+ * any of them the power to take the table out of service (no callback fault is
+ * injected here; what a library does after a driver I/O error is left open,
+ * see P1's fault cases).  Tables: the three adjacent areas of P2, each area in
+ * {memory RW, callback RW, callback read-only without write function, memory
+ * read-only without write function, callback write-only}, one 16-bit register
+ * with range 10..20 and default 15 at the base of every area.  After
+ * register_init the storage is filled with distinct words, the registers hold
+ * 11, 12, 13; then ONE intervening call, then every window x {block read,
+ * iteration} against the flat model of the storage as it is then. */
+enum {
+    IV_SANITISE,      /* sanitise, every register sane */
+    IV_SANITISE_POKED,/* +k: register k holds 99 (out of range) out of band, then sanitise: repaired, or refused where area k cannot be written */
+    IV_SET_REFUSED = IV_SANITISE_POKED + 3, /* +k: typed set of 21 (out of range) */
+    IV_SET_OK = IV_SET_REFUSED + 3,         /* +k: typed set of 17 */
+    IV_BW_REFUSED = IV_SET_OK + 3,          /* +k: block write of 21 onto register k */
+    IV_BW_OK = IV_BW_REFUSED + 3,           /* +k: block write of 18 onto register k */
+    IV_BW_HOLE = IV_BW_OK + 3,              /* block write starting on the unmapped address below the table */
+    IV_TYPED_READS,                         /* get, default, bit set / clear, touch / untouch of every register; bad handle */
+    IV_ITER_STOPPED,                        /* an iteration over the whole table stopped with -1 at the first register */
+    IV_NOPS
+};
+
+static const char *
+iv_name(int op)
+{
+    static char b[96];
+    if (op == IV_SANITISE) return "register_sanitise (all registers sane)";
+    if (op == IV_BW_HOLE) return "register_block_write starting on an unmapped address";
+    if (op == IV_TYPED_READS) return "register_get/default/bit_set/bit_clear/touch/untouch of every register and of a bad handle";
+    if (op == IV_ITER_STOPPED) return "register_foreach_in stopped with -1 at the first register";
+    const int k = (op - IV_SANITISE_POKED) % 3;
+    snprintf(b, sizeof b, op < IV_SET_REFUSED ? "register %d poked out of range, then register_sanitise"
+                          : op < IV_SET_OK ? "register_set(%d, 21: out of range)"
+                          : op < IV_BW_REFUSED ? "register_set(%d, 17)"
+                          : op < IV_BW_OK ? "register_block_write of 21 (out of range) onto register %d" : "register_block_write of 18 onto register %d", k);
+    return b;
+}
+
+static int
+iv_stop_cb(RegisterTable *t, RegisterHandle h, void *arg)
+{
+    (void)t; (void)h; (void)arg;
+    return -1;
+}
+
+static void
+iv_call(int op)
+{
+    RegisterAccess a = REG_ACCESS_RESULT_INIT;
+    RegisterValue v;
+    memset(&v, 0, sizeof v);
+    v.type = REG_TYPE_UINT16;
+    RegisterAtom *buf = mc_exact(2 * sizeof(RegisterAtom));
+    buf[0] = buf[1] = 0;
+    const int k = op >= IV_SANITISE_POKED && op < IV_BW_HOLE ? (op - IV_SANITISE_POKED) % 3 : 0;
+    if (op == IV_SANITISE)
+        a = register_sanitise(&tb.t);
+    else if (op < IV_SET_REFUSED) {
+        tb.store[k][0] = 99;
+        a = register_sanitise(&tb.t);
+    } else if (op < IV_SET_OK) {
+        v.value.u16 = 21;
+        a = register_set(&tb.t, (RegisterHandle)k, v);
+    } else if (op < IV_BW_REFUSED) {
+        v.value.u16 = 17;
+        a = register_set(&tb.t, (RegisterHandle)k, v);
+    } else if (op < IV_BW_OK) {
+        buf[0] = 21;
+        a = register_block_write(&tb.t, tb.s.r[k].addr, 1, buf);
+    } else if (op < IV_BW_HOLE) {
+        buf[0] = 18;
+        a = register_block_write(&tb.t, tb.s.r[k].addr, 1, buf);
+    } else if (op == IV_BW_HOLE) {
+        buf[0] = buf[1] = 12;
+        a = register_block_write(&tb.t, tb.s.a[0].base - 1, 2, buf);
+    } else if (op == IV_TYPED_READS) {
+        for (int r = 0; r <= tb.s.nr; ++r) {
+            RegisterValue g;
+            memset(&g, 0, sizeof g);
+            (void)register_get(&tb.t, (RegisterHandle)r, &g);
+            (void)register_default(&tb.t, (RegisterHandle)r, &g);
+            v.value.u16 = 4;
+            (void)register_bit_set(&tb.t, (RegisterHandle)r, v);
+            a = register_bit_clear(&tb.t, (RegisterHandle)r, v);
+            if (r < tb.s.nr) {
+                register_touch(&tb.t, (RegisterHandle)r);
+                register_untouch(&tb.t, (RegisterHandle)r);
+            }
+        }
+    } else
+        a = register_foreach_in(&tb.t, tb.s.a[0].base, 8, iv_stop_cb, NULL);
+    mc_trans(1);
+    mc_log("intervening call: %s -> %s@%u (not judged here)", iv_name(op), acc(a.code), a.address);
+    free(buf);
+}
+
+static void
+run_intervening(const struct tspec *s, int ti)
+{
+    g_wide = false;
+    const uint32_t span = fam_span(s);
+    for (int op = 0; op < IV_NOPS; ++op) {
+        bool built = false, init_ok = false;
+        const int k = op >= IV_SANITISE_POKED && op < IV_SET_REFUSED ? op - IV_SANITISE_POKED : -1;
+        const bool unrepairable = k >= 0 && !flat_writable(&s->a[k]); /* sanitise cannot put the default back */
+        for (int mode = 0; mode < 2; ++mode)
+            for (uint32_t rel = 0; rel < span; ++rel)
+                for (uint32_t n = 0; rel + n <= span; ++n) {
+                    const uint32_t addr = fam_origin(s) + rel;
+                    if (!mc_case("table#%d %s after init: %s; then %s=(%s,%u)", ti, tspec_str(s), iv_name(op), mode ? "foreach_in" : "block_read", addr_str(addr), n))
+                        continue;
+                    if (!built) {
+                        tab_build(&tb, s);
+                        RegisterInit ri = register_init(&tb.t);
+                        built = true;
+                        init_ok = ri.code == REG_INIT_SUCCESS;
+                        if (init_ok) {
+                            fill_distinct();
+                            for (int r = 0; r < s->nr; ++r)
+                                tb.store[r][0] = (RegisterAtom)(11 + r);
+                            iv_call(op);
+                        } else
+                            mc_log("register_init -> code %d at %u", ri.code, ri.pos.entry);
+                    }
+                    if (!init_ok) {
+                        note_init_refused(0);
+                        mc_end(false, "init-refused");
+                        continue;
+                    }
+                    const char *o = mode ? do_iter(addr, n) : do_read(addr, n, -1);
+                    if (!strcmp(o, "failed"))
+                        mc_end(true, "failed");
+                    else if (unrepairable)
+                        mc_end(true, mode ? "after-unrepairable-sanitise-iter" : !strcmp(o, "read-unmapped") ? "after-unrepairable-sanitise-read-unmapped" : "after-unrepairable-sanitise-read-ok");
+                    else
+                        mc_end(true, mode ? "after-other-call-iter" : !strcmp(o, "read-unmapped") ? "after-other-call-read-unmapped" : "after-other-call-read-ok");
+                }
+        if (built)
+            tab_free(&tb);
+    }
+}
+
+static int
+ivfam_enumerate(int idx)
+{
+    struct tspec s;
+    for (int c = 0; c < 125; ++c) {
+        memset(&s, 0, sizeof s);
+        s.na = 3;
+        int cc = c;
+        for (int i = 0; i < 3; ++i, cc /= 5) {
+            const int kind = cc % 5; /* 0 memory RW, 1 callback RW, 2 callback read-only without write function, 3 memory read-only without write function, 4 callback write-only */
+            struct aspec *a = &s.a[i];
+            a->base = XLAYOUTS[0].base[i];
+            a->size = XLAYOUTS[0].size[i];
+            a->cb = kind == 1 || kind == 2 || kind == 4;
+            a->nowrite = kind == 2 || kind == 3;
+            a->flags = (uint16_t)(kind == 4 ? REG_AF_WRITEABLE : a->nowrite ? REG_AF_READABLE : REG_AF_RW);
+            struct rspec *r = &s.r[s.nr++];
+            r->type = REG_TYPE_UINT16;
+            r->addr = a->base;
+            r->ckind = K_RANGE;
+            r->lo = vu_int(r->type, 10);
+            r->hi = vu_int(r->type, 20);
+            r->def = vu_int(r->type, 15);
+        }
+        s.be = (c & 1);
+        run_intervening(&s, idx++);
+    }
+    return idx;
+}
+
 /* ---- P4: large tables -------------------------------------------------------------- */
 
 struct big {
@@ -1282,7 +1463,11 @@ main(int argc, char **argv)
     ntab = afam_enumerate(run_table, ntab);
     x_shift = 0;
     const int nacc = ntab - nacc0;
-    char bound[1700];
+    /* P9: calls of another kind between initialisation and the reads */
+    const int niv0 = ntab;
+    ntab = ivfam_enumerate(ntab);
+    const int niv = ntab - niv0;
+    char bound[2600];
     snprintf(bound, sizeof bound,
              "%d family tables + %d tables of 3/4 adjacent areas + %d tables at address shifts 0x7ffffffc/0xfffffff5 + %d tables with one or two zero-sized areas at every list position and admissible base x every (address,length) over 10 addresses x "
              "{block read, iteration with every stop script (results +-1 at every position; +-2, +-256, +-65536, INT_MIN/MAX at the first and last position), "
@@ -1293,8 +1478,12 @@ main(int argc, char **argv)
              "first area up to 0xffffffff with address+length <= 2^32 x the same three operations; "
              "access flags x accessor presence: %d tables of 3 adjacent areas (the area at each position x {memory-, callback-backed} x READABLE flag x read function "
              "present/absent x WRITEABLE flag x write function present/absent, neighbours RW callback-/memory-backed; at address 1 and ending at 0xffffffff) x every "
-             "(address,length) x the same three operations",
-             nfam, nx, nshift, nzero, (long long)hist_count, th ? " and triples" : "", nbig, ntopfam, ntopx, nacc);
+             "(address,length) x the same three operations; "
+             "intervening calls: %d tables of 3 adjacent areas (each {memory RW, callback RW, callback read-only without write function, memory read-only without write "
+             "function, callback write-only}, a range-constrained 16-bit register at every base) x %d calls of another kind between register_init and the reads (sanitise "
+             "clean / with each register poked out of range - repaired or unrepairable -, refused and accepted typed set and block write per register, block write into a "
+             "hole, typed reads and bit operations incl. a bad handle, a stopped iteration) x every (address,length) x {block read, iteration}",
+             nfam, nx, nshift, nzero, (long long)hist_count, th ? " and triples" : "", nbig, ntopfam, ntopx, nacc, niv, (int)IV_NOPS);
     mc_finish(true, bound);
     return 0;
 }
